@@ -92,14 +92,25 @@ def bin_insn(op, T, form):
     raise AssertionError(form)
 
 
+def is_const_expr(e):
+    """no variable anywhere below: DAD prints it as a literal-only Java expression"""
+    if e[0] == "const":
+        return True
+    if e[0] == "un":
+        return is_const_expr(e[2])
+    if e[0] == "bin":
+        return is_const_expr(e[3]) and (isinstance(e[4], int) or is_const_expr(e[4]))
+    return False
+
+
 def bin_shape_features(e):
     """operand-shape refinements of a binary node: constant on the left (@cp) / on the right (@pc)"""
     _, op, T, a, b, form = e
     insn = bin_insn(op, T, form)
     out = []
-    if a[0] == "const":
+    if is_const_expr(a):
         out.append("op:%s@cp" % insn)
-    if not isinstance(b, int) and b[0] == "const":
+    if not isinstance(b, int) and is_const_expr(b):
         out.append("op:%s@pc" % insn)
     if len(out) == 2:
         out.append("op:%s@cc" % insn)
@@ -1622,9 +1633,17 @@ def pattern_methods(rng):
             "empty-cases-empty-default": ([([keys[0]], a1, False), ([keys[1], keys[2]], brk, False)], []),
             "default-returns": ([([keys[0]], a1, False), ([keys[1]], [post], False)], [("return", ("var", "p1"))]),
             "if-in-case": ([([keys[0]], [("if", ("cmp", "lt", "I", x0, ("var", "p1"), False), a1, [post])], False), ([keys[1]], [post], False)], [pre]),
+            "if-return-falls-into-next-case": ([([keys[0]], [("if", ("cmp", "lt", "I", x0, ("var", "p1"), False), r1, [])], True), ([keys[1]], r2, False)], [pre]),
         }
+        three = {}
+        for vn in ("case-returns", "two-cases-return", "fallthrough", "fallthrough-into-return", "if-return-falls-into-next-case", "empty-case", "default-returns"):
+            cs, df = variants[vn]
+            if len(cs) == 2:  # a leading case that really breaks gives the switch a proper follow node
+                three[vn + "#3"] = ([([keys[2]], [("assign", "x0", ("bin", "sub", "I", x0, ("var", "p1"), "3reg"))], False)] + cs, df)
+        variants.update(three)
         for vn, (cases, default) in variants.items():
             sw = ("switch", sel, cases, default, kind)
+            vn = vn.split("#")[0]
             tail = [("return", ("bin", "or", "I", x0, 7, "lit8"))]
             add("PS", "I", P2, [init, sw] + (tail if stmt_falls(sw) else []), "switch:%s:%s@top" % (kind, vn), "top")
             add("PS", "I", P2, [init, ("if", ("cmp", "gt", "I", ("var", "p1"), ("var", "p0"), False), [sw], [post])] + tail, "switch:%s:%s@nested" % (kind, vn), "in-if-else")
@@ -1658,7 +1677,12 @@ def pattern_methods(rng):
         "two-divs-order": [("assign", "x0", ("bin", "div", "I", ("var", "p0"), ("var", "p1"), "3reg")), ("assign", "x1", ("bin", "rem", "I", ("var", "p1"), ("var", "p0"), "3reg")),
                            ("return", ("bin", "sub", "I", ("var", "x1"), x0, "3reg"))],
     }
-    alias = {"def-only-in-do-while-body-use-after": "def-only-in-do-while-body", "def-only-in-do-while-body-use-after-and-in-body": "def-only-in-do-while-body"}
+    kk = ("assign", "k0", _c(0))
+    du = ("assign", "x1", ("bin", "mul", "I", x0, ("var", "k0"), "3reg"))
+    pd["counters-in-sibling-branches-only-dead-use-after"] = [("assign", "x0", _c(5)), ("if", c1, [kk, ("while", lc, [_acc(), inc], "top")], [kk, ("while", lc, [_acc(_c(2)), inc], "top")]),
+                                                                 du, ("return", x0)]
+    alias = {"def-only-in-do-while-body-use-after": "def-only-in-do-while-body", "def-only-in-do-while-body-use-after-and-in-body": "def-only-in-do-while-body",
+             "def-in-both-branches-only-dead-use-after": "dead-stmt-uses-local", "counters-in-sibling-branches-only-dead-use-after": "dead-stmt-uses-local"}
     for name, body in pd.items():
         if name == "div-in-unused-nested-expression":
             add("PD", "I", P2, body, "dead:div-int", name)
@@ -1742,6 +1766,8 @@ def switch_props(s):
                 p.add("fallthrough-into-return")
         if any(x[0] == "if" for x in body):
             p.add("if-in-case")
+        if ft and i < len(cases) - 1 and body and body[-1][0] == "if" and any(ends_with_return(bb) for bb in sub_blocks(body[-1])):
+            p.add("if-return-falls-into-next-case")
     if nret >= 2:
         p.add("two-cases-return")
     if nret == len(cases):
@@ -1757,7 +1783,7 @@ VARIANT_PROPS = {
     "all-cases-return": {"all-cases-return"}, "all-return-incl-default": {"all-cases-return", "default-returns"},
     "fallthrough": {"fallthrough"}, "fallthrough-into-return": {"fallthrough-into-return"}, "multi-label": {"multi-label"},
     "empty-case": {"empty-case"}, "empty-cases-empty-default": {"empty-case", "multi-label", "empty-default"}, "default-returns": {"default-returns"},
-    "if-in-case": {"if-in-case"},
+    "if-in-case": {"if-in-case"}, "if-return-falls-into-next-case": {"if-return-falls-into-next-case"},
 }
 NARROW = ("int-to-byte", "int-to-char", "int-to-short")
 
@@ -1776,6 +1802,8 @@ def structural_features(m):
                 e = s[2]
                 if k == "assign" and throwing_insns(e):
                     f.add("throw:div-or-rem")
+                if k == "dead" and any(not n.startswith("p") for n in expr_uses(e)):
+                    f.add("decl:dead-stmt-uses-local")
                 kind = "narrow:" + e[1] if e[0] == "un" and e[1] in NARROW else "wide"
                 defs.setdefault(s[1], set()).add(kind)
                 da.add(s[1])
@@ -1940,6 +1968,24 @@ def neutralise_struct(m, bad):
         return out
 
     body = m.body
+    if "decl:dead-stmt-uses-local" in bad and "decl:dead-stmt-uses-local" in m.features:
+        def drop(stmts):
+            o = []
+            for s in stmts:
+                if s[0] == "dead" and any(not n.startswith("p") for n in expr_uses(s[2])):
+                    done.add("decl:dead-stmt-uses-local")
+                    continue
+                if s[0] == "if":
+                    s = ("if", s[1], drop(s[2]), drop(s[3]))
+                elif s[0] == "while":
+                    s = ("while", s[1], drop(s[2]), s[3])
+                elif s[0] == "dowhile":
+                    s = ("dowhile", drop(s[1]), s[2])
+                elif s[0] == "switch":
+                    s = ("switch", s[1], [(ks, drop(b), ft) for ks, b, ft in s[2]], None if s[3] is None else drop(s[3]), s[4])
+                o.append(s)
+            return o
+        body = drop(body)
     if any(b.startswith("type:") for b in bad):
         body = strip_narrow(body)
     if any(b.split(":")[0] in ("nest", "seq", "switch", "ret-in") for b in bad):
